@@ -82,3 +82,50 @@ def compare_ev(ctx, driver, pairs: List[Tuple[Any, str, str]], ds_list: List[str
             ctx.violate({"case": case, **bad}, what, keyfn(case, bad) if keyfn else None)
     ctx.dist["ev_original_ok"] += n_ok
     ctx.dist["ev_pairs"] += len(pairs) * len(ds_list)
+
+
+def pyval_sexpr(v: Any) -> str:
+    "Python literal value -> Lean `PyVal` S-expression (Fadl/PyVal.lean)."
+    from sexpr import q
+
+    if v is None:
+        return "none"
+    if v is Ellipsis:
+        return "ellipsis"
+    if isinstance(v, bool):
+        return "(bool true)" if v else "(bool false)"
+    if isinstance(v, int):
+        return f"(int {v})"
+    if isinstance(v, float):
+        return f"(float {q(repr(v))})"
+    if isinstance(v, str):
+        return f"(str {q(v)})"
+    if isinstance(v, bytes):
+        return f"(bytes {q(repr(v))})"
+    if isinstance(v, tuple):
+        return "(tuple (" + " ".join(pyval_sexpr(x) for x in v) + "))"
+    if isinstance(v, list):
+        return "(list (" + " ".join(pyval_sexpr(x) for x in v) + "))"
+    if isinstance(v, dict):
+        return (
+            "(dict (" + " ".join(pyval_sexpr(k) for k in v.keys()) + ") ("
+            + " ".join(pyval_sexpr(x) for x in v.values()) + "))"
+        )
+    raise TypeError(f"cannot encode {type(v)} as PyVal")
+
+
+def same_value(a: Any, b: Any) -> bool:
+    "equal value AND equal type, recursively (1 != True != 1.0)"
+    if type(a) is not type(b):
+        return False
+    if isinstance(a, (list, tuple)):
+        return len(a) == len(b) and all(same_value(x, y) for x, y in zip(a, b))
+    if isinstance(a, dict):
+        return len(a) == len(b) and all(
+            same_value(k1, k2) and same_value(v1, v2) for (k1, v1), (k2, v2) in zip(a.items(), b.items())
+        )
+    if isinstance(a, float):
+        import math
+
+        return (a == b and math.copysign(1, a) == math.copysign(1, b)) or (a != a and b != b)
+    return a == b
